@@ -561,6 +561,73 @@ func insertsNewlines(p *Program, f *ssa.Function) bool {
 	return found
 }
 
+// noNewlineFoundOn: the control-flow edge pred→succ is only taken when a search for "\n" in v
+// came back empty.
+func noNewlineFoundOn(v ssa.Value, pred, succ *ssa.BasicBlock) bool {
+	fn := pred.Parent()
+	isNL := func(a ssa.Value) bool {
+		if s, ok := constString(a); ok {
+			return s == "\n"
+		}
+		if c, ok := constInt(a); ok {
+			return c == '\n'
+		}
+		return false
+	}
+	for _, b := range fn.Blocks {
+		if len(b.Instrs) == 0 || len(b.Succs) != 2 {
+			continue
+		}
+		iff, ok := b.Instrs[len(b.Instrs)-1].(*ssa.If)
+		if !ok {
+			continue
+		}
+		var absent *ssa.BasicBlock
+		switch c := iff.Cond.(type) {
+		case *ssa.Call:
+			switch calleeName(c) {
+			case "strings.Contains", "strings.ContainsRune", "strings.ContainsAny":
+				if stripConv(c.Call.Args[0]) == stripConv(v) && isNL(c.Call.Args[1]) {
+					absent = b.Succs[1]
+				}
+			}
+		case *ssa.BinOp:
+			call, ok := c.X.(*ssa.Call)
+			if !ok {
+				continue
+			}
+			switch calleeName(call) {
+			case "strings.IndexByte", "strings.Index", "strings.IndexRune", "strings.IndexAny":
+			default:
+				continue
+			}
+			if stripConv(call.Call.Args[0]) != stripConv(v) || !isNL(call.Call.Args[1]) {
+				continue
+			}
+			k, ok := constInt(c.Y)
+			if !ok {
+				continue
+			}
+			switch {
+			case c.Op == token.GEQ && k == 0, c.Op == token.GTR && k == -1, c.Op == token.NEQ && k == -1:
+				absent = b.Succs[1]
+			case c.Op == token.LSS && k == 0, c.Op == token.EQL && k == -1, c.Op == token.LEQ && k == -1:
+				absent = b.Succs[0]
+			}
+		}
+		if absent == nil {
+			continue
+		}
+		if b == pred && absent == succ {
+			return true
+		}
+		if len(absent.Preds) == 1 && (absent == pred || absent.Dominates(pred)) {
+			return true
+		}
+	}
+	return false
+}
+
 func newlineFree(p *Program, v ssa.Value, depth int) bool {
 	if depth > 8 || v == nil {
 		return false
@@ -571,10 +638,16 @@ func newlineFree(p *Program, v ssa.Value, depth int) bool {
 		s, ok := constString(x)
 		return ok && !strings.Contains(s, "\n")
 	case *ssa.Phi:
-		for _, e := range x.Edges {
-			if !newlineFree(p, e, depth+1) {
-				return false
+		for i, e := range x.Edges {
+			if newlineFree(p, e, depth+1) {
+				continue
 			}
+			// the unreplaced text on the edge where a search for a line break found none
+			// (if strings.IndexByte(s, '\n') >= 0 { s = strings.ReplaceAll(s, "\n", " ") })
+			if i < len(x.Block().Preds) && noNewlineFoundOn(e, x.Block().Preds[i], x.Block()) {
+				continue
+			}
+			return false
 		}
 		return true
 	case *ssa.UnOp:
